@@ -14,8 +14,8 @@ What run() does
    function in the copy (`inject`), because Kani reaches private functions only from inside their
    module (stand-alone projects, key `project`, are copied as they are instead);
 3. runs ONE `cargo kani -j <jobs> --output-into-files --harness-timeout ...` for the harnesses of the
-   tier, in its own session/process group, with RLIMIT_AS = mem_gb per process (inherited by every
-   cbmc) and an overall wall timeout; the whole process group is killed afterwards; harnesses that
+   tier, in its own session/process group, with RLIMIT_AS = mem_gb on every cbmc process (prlimit within
+   1 s of its start; 4*mem_gb on the rest of the tree) and an overall wall timeout; the whole process group is killed afterwards; harnesses that
    were lost WITHOUT a verdict because the kani driver died under them (e.g. somebody's `pkill cbmc`)
    are re-run once inside the same wall budget (`"retried": true` in their row);
 4. classifies every harness from its own result file (NOT from Kani's exit code):
@@ -27,8 +27,8 @@ What run() does
      crashed       "CBMC failed" without a failed check (out of memory under the cap, solver abort)
      no-result     no result file (overall timeout hit first, or nothing was run)
    (Kani prints `VERIFICATION:- FAILED` for timeouts and crashes too - those are never "fail".)
-5. for failed harnesses, re-runs the two cheapest of them (sequentially: Kani refuses
-   --concrete-playback together with --jobs) with `--concrete-playback print` to get concrete
+5. if harnesses failed, re-runs the cheapest of them (Kani refuses --concrete-playback together
+   with --jobs, and playback costs 2-4x the plain run) with `--concrete-playback print` to get concrete
    values (the `witness`); a time-boxed best effort, the verdict does not depend on it;
 6. removes the scratch dir (with its target/) in a `finally` block.
 
@@ -63,7 +63,7 @@ default taken from REGISTRY, looked up by `standin`, then `name`, then `target`)
   bound       {"quick": str, "thorough": str} human-readable statement of what the tier covers
   expected    "pass" (default) | "fail" (known finding: the harness is expected to fail today)
   jobs        parallel CBMC processes (default 6, hard cap 6)
-  mem_gb      RLIMIT_AS per process in GiB (default 10)
+  mem_gb      RLIMIT_AS per cbmc process in GiB (default 10); all other processes of the run get 4x that
   harness_timeout_s   {"quick": s, "thorough": s} per harness (Kani --harness-timeout)
   wall_timeout_s      {"quick": s, "thorough": s} for the whole cargo kani invocation
   witness_layout      how to read the concrete-playback values (order of the kani::any() calls)
@@ -242,30 +242,48 @@ def _kill_group(pgid):
 
 
 class _Runner:
-    """one cargo kani invocation in its own session, memory-capped, with wall timeout and RSS sampling"""
+    """one cargo kani invocation in its own session with wall timeout, memory caps and RSS sampling.
+
+    Memory: every `cbmc` process gets RLIMIT_AS = mem_gb, set with prlimit(2) by the sampler thread within
+    a second of its start (a cbmc needs many seconds before it holds gigabytes).  Everything else in the
+    tree (kani-driver, kani-compiler, goto-*) only gets the outer cap 4*mem_gb at exec time: with the tight
+    cap on the whole tree kani-driver itself aborts ("memory allocation of N bytes failed") when it runs six
+    larger harnesses, which loses the harnesses in flight."""
 
     def __init__(self, cmd, cwd, mem_gb, wall_s):
         self.cmd, self.cwd, self.mem_gb, self.wall_s = cmd, cwd, mem_gb, wall_s
         self.peak_rss_kb = 0
+        self.peak_other = (0, '')
         self.timed_out = False
         self.out = ''
         self.rc = None
 
     def _limits(self):
         os.setsid()
-        lim = int(self.mem_gb * (1 << 30))
+        lim = int(4 * self.mem_gb * (1 << 30))
         resource.setrlimit(resource.RLIMIT_AS, (lim, lim))
 
     def _sample(self, pgid, stop):
-        while not stop.wait(2.0):
+        capped = set()
+        lim = int(self.mem_gb * (1 << 30))
+        while not stop.wait(1.0):
             for pid, comm in _pgid_members(pgid):
-                if 'cbmc' not in comm:
-                    continue
+                is_cbmc = (comm == 'cbmc')
+                if is_cbmc and pid not in capped:
+                    try:
+                        resource.prlimit(pid, resource.RLIMIT_AS, (lim, lim))
+                        capped.add(pid)
+                    except (OSError, ValueError):
+                        pass
                 try:
                     with open('/proc/%d/status' % pid) as f:
                         for line in f:
                             if line.startswith('VmHWM:'):
-                                self.peak_rss_kb = max(self.peak_rss_kb, int(line.split()[1]))
+                                kb = int(line.split()[1])
+                                if is_cbmc:
+                                    self.peak_rss_kb = max(self.peak_rss_kb, kb)
+                                elif kb > self.peak_other[0]:
+                                    self.peak_other = (kb, comm)
                                 break
                 except (OSError, ValueError):
                     pass
@@ -328,8 +346,8 @@ def _parse_harness(text, timeout_s):
         if failed:
             return 'undetermined', secs, failed, 'only unwinding/unsupported-construct checks failed: ' + '; '.join(sorted(set(f['description'] for f in failed)))[:300]
         tail = ' '.join(text.strip().splitlines()[-4:])[:300]
-        oom = re.search(r'out of memory|bad_alloc|Cannot allocate|memory', text, re.I)
-        return 'crashed', secs, [], ('CBMC failed without a failed check (%s): %s' % ('memory cap' if oom else 'crash/abort', tail))
+        oom = re.search(r'out of memory|bad_alloc|Cannot allocate|memory|status 6\b|status 9\b|status 137|status 134', text, re.I)
+        return 'crashed', secs, [], ('CBMC failed without a failed check (%s): %s' % ('abort/kill: most likely the per-cbmc memory cap' if oom else 'crash', tail))
     return 'no-result', secs, [], 'no verdict in the result file'
 
 
@@ -416,6 +434,7 @@ def run(spec, tier='quick'):
         rows_by = {}
         started = set()
         peak = 0
+        peak_other = (0, '')
         log = ''
         timed_out = False
         todo = list(zip(harnesses, full))
@@ -432,9 +451,11 @@ def run(spec, tier='quick'):
                 cmd += ['--harness', fq]
             cmd += list(s.get('cargo_args', []))
             if attempt == 0:
-                res['cmd'] = 'CARGO_NET_OFFLINE=true ' + ' '.join(cmd) + '   # RLIMIT_AS %g GiB/process, wall %ds' % (mem_gb, w_to)
+                res['cmd'] = 'CARGO_NET_OFFLINE=true ' + ' '.join(cmd) + '   # RLIMIT_AS %g GiB per cbmc (%g GiB other processes), wall %ds' % (mem_gb, 4 * mem_gb, w_to)
             r = _Runner(cmd, work, mem_gb, left).run()
             peak = max(peak, r.peak_rss_kb)
+            if r.peak_other[0] > peak_other[0]:
+                peak_other = r.peak_other
             log += r.out + '\n'
             timed_out = r.timed_out
             started |= set(re.findall(r'Checking harness (\S+?)\.\.\.', r.out))
@@ -501,8 +522,8 @@ def run(spec, tier='quick'):
                     lines.append('%s: FAILED "%s" at %s' % (x['name'], fc['description'], fc['location']))
             wit = None
             try:
-                # --concrete-playback is incompatible with --jobs: sequential, the two cheapest failed harnesses only
-                cheapest = sorted(fails, key=lambda x: x['seconds'] if x['seconds'] is not None else 1e9)[:2]
+                # --concrete-playback is incompatible with --jobs (and slow): the cheapest failed harness only
+                cheapest = sorted(fails, key=lambda x: x['seconds'] if x['seconds'] is not None else 1e9)[:1]
                 fq_fail = [(mod + '::' + x['name']) if mod else x['name'] for x in cheapest]
                 cmd2 = ['cargo', 'kani', '--output-format', 'terse', '-Z', 'unstable-options',
                         '--harness-timeout', '%ds' % h_to, '-Z', 'concrete-playback', '--concrete-playback', 'print', '--exact']
@@ -535,6 +556,7 @@ def run(spec, tier='quick'):
         if open_ and fails:
             res['detail'] += ' || not finished: ' + ', '.join('%s=%s' % (x['name'], x['result']) for x in open_)
         res['peak_cbmc_rss_mb'] = int(peak / 1024) if peak else None
+        res['peak_other_rss_mb'] = [int(peak_other[0] / 1024), peak_other[1]] if peak_other[0] else None
         with open(os.path.join(scratch, 'kani.log'), 'w') as f:
             f.write(log)
         return res
